@@ -57,6 +57,9 @@ func loadVariants(verif string) []variant {
 		}
 		if json.Unmarshal(b, &idx) == nil {
 			for _, e := range idx {
+				if e.Expect == "skip" {
+					continue // documented as outside the property's claim
+				}
 				if e.Expect == "none" {
 					out = append(out, variant{ID: e.ID, Patch: filepath.Join(verif, "variants", e.ID+".diff"), Props: []string{"*"}, Desc: e.Description, Kind: "benign", Benign: true})
 					continue
